@@ -194,11 +194,12 @@ def parse_fn_blocks(lines, origin):
                     # binder slot carries the optional `from` marker for line anchors
                     fs.inserts.append((m.group(1), m.group(2), int(m.group(3) or 1), m.group(4), cur))
                 elif s.startswith('//@loop'):
-                    m = re.match(r'^//@loop\s+(\d+)(?:\s+binder=(\w+))?\s*$', s)
+                    m = re.match(r'^//@loop(\?)?\s+(\d+)(?:\s+binder=(\w+))?\s*$', s)
                     if not m:
                         raise AssembleError('%s:%d bad //@loop' % (origin, i + 1))
                     cur = []
-                    fs.inserts.append(('loop', None, int(m.group(1)), m.group(2), cur))
+                    # `//@loop? N`: the clauses of the N-th loop if the body has one (a body without it is rendered as it is)
+                    fs.inserts.append(('loop', m.group(1), int(m.group(2)), m.group(3), cur))
                 elif s.startswith('//@'):
                     raise AssembleError('%s:%d unknown directive %s' % (origin, i + 1, s))
                 else:
@@ -1066,19 +1067,39 @@ def lift_arm(src, loc, arm, armsig, where):
     body = text[loc['body_open']:loc['end']]
     base = loc['body_open']
     # the pattern may be laid out over several lines: white space in `arm` matches any white space
-    rx = re.compile(r'\s+'.join(re.escape(w) for w in arm.split()) + r'\s*=>\s*\{')
+    rx = re.compile(r'\s+'.join(re.escape(w) for w in arm.split()) + r'\s*=>\s*')
     ms = list(rx.finditer(body))
     if len(ms) != 1:
-        raise AssembleError('anchor lost: %s: match arm `%s => {` found %d times' % (where, arm, len(ms)))
+        raise AssembleError('anchor lost: %s: match arm `%s =>` found %d times' % (where, arm, len(ms)))
     idx = ms[0].start()
     toks = code_tokens(body)
     ob = None
     for j in range(len(toks)):
-        if toks[j][1] == ms[0].end() - 1:
+        if toks[j][1] == ms[0].end():
             ob = j
             break
-    cb = match_close(body, toks, ob)
-    block = body[toks[ob][2]:toks[cb][1]]
+    if ob is not None and body[toks[ob][1]:toks[ob][2]] == '{':
+        cb = match_close(body, toks, ob)
+        block = body[toks[ob][2]:toks[cb][1]]
+    else:
+        # an expression arm `PATTERN => EXPR,`: the expression up to the comma that ends the arm
+        depth = 0
+        cb = None
+        for j in range(ob, len(toks)):
+            t = body[toks[j][1]:toks[j][2]]
+            if t in ('(', '[', '{'):
+                depth += 1
+            elif t in (')', ']', '}'):
+                if depth == 0:
+                    cb = j - 1
+                    break
+                depth -= 1
+            elif t == ',' and depth == 0:
+                cb = j
+                break
+        if cb is None:
+            raise AssembleError('anchor lost: %s: match arm `%s =>` does not end' % (where, arm))
+        block = '\n' + body[toks[ob][1]:toks[cb][1]] + '\n'
     consts = re.findall(r'^\s*const\s+\w+\s*:\s*[^=;]+=\s*[^;]+;', body[:idx], re.M)
     fn = 'fn %s {\n%s%s}' % (armsig, ''.join('    ' + c.strip() + '\n' for c in consts), block)
     return fn, src.line_of(base + idx), src.line_of(base + toks[cb][2]), arm + ' => { .. }'
@@ -1344,7 +1365,8 @@ def expand_fn(fs, assumed_override=False, notes=None):
                 loops = [j for j in range(len(btoks)) if btoks[j][0] == 'ident' and T(j) in ('while', 'for', 'loop')
                          and not (j and T(j - 1) in ('.',))]
                 if n > len(loops):
-                    lost.append('loop %d' % n)
+                    if arg != '?':
+                        lost.append('loop %d' % n)
                     continue
                 j = loops[n - 1]
                 # header brace
